@@ -42,9 +42,11 @@ def finish(ctx, summaries, extra_coverage=None, extra_assumptions=(), xh=None):
     bounds = {}
     per_job = []
     fork_q = 0
+    fork_hashes = set()
     for job, s in zip(ctx.jobs, summaries):
         paths += s["paths"]
         fork_q += s.get("fork_queries", 0)
+        fork_hashes.update(s.get("fork_hashes", ()))
         for e in s["errors"]:
             errors.append("[%s] %s" % (job.name, e))
         stubs |= set(s["stubs"])
@@ -189,10 +191,14 @@ def finish(ctx, summaries, extra_coverage=None, extra_assumptions=(), xh=None):
     wall = time.time() - ctx.t0
     cov = {
         "evaluations": max(1, n_goals),
-        "distinct_nontrivial": len(hashes),
+        "distinct_nontrivial": len(hashes) + len(fork_hashes),
+        "distinct_nontrivial_obligations": len(hashes), "distinct_path_feasibility_queries": len(fork_hashes),
         "rule": "one evaluation = one obligation (one real-valued equality or predicate produced by executing the real "
-                "functions on symbolic inputs, on one explored path); distinct_nontrivial = obligations, deduplicated by "
-                "the hash of their SMT-LIB text, whose goal did not fold to `true` syntactically and so reached a solver",
+                "functions on symbolic inputs, on one explored path); distinct_nontrivial = distinct queries a solver had to "
+                "decide, deduplicated by the hash of their SMT-LIB text: obligations whose goal did not fold to `true` by "
+                "hash-consing (distinct_nontrivial_obligations) plus the path-feasibility queries that determine which branches "
+                "of the real code exist (distinct_path_feasibility_queries); obligations that fold syntactically are counted in "
+                "evaluations only",
         "samples": samples or [{"note": "no non-trivial obligation was discharged in this run"}],
         "obligations": n_goals, "discharged": n_triv + n_unsat + n_tol,
         "discharged_within_tolerance_1e-3_on_a_tolerance_branch": n_tol, "discharged_by_solver": n_unsat,
